@@ -2,7 +2,7 @@
     unit, list, prod, sumbool and sumor map to the OCaml types; N, positive, Z and nat stay the
     extracted inductive types. No [Extract Constant], no further [Extract Inductive]. *)
 From Coq Require Import Extraction ExtrOcamlBasic.
-From AnemoVerif Require Import Base Utf8 Bincode Status Wire.
+From AnemoVerif Require Import Base Utf8 Bincode Status Wire SizeLimit Timeout.
 
 Extraction Language OCaml.
 
@@ -13,4 +13,7 @@ Separate Extraction
   Wire.version_new Wire.preamble Wire.parse_preamble Wire.eff_max
   Wire.enc_frame Wire.dec_frame
   Wire.enc_request Wire.enc_response Wire.dec_request Wire.dec_response
-  Wire.strip_req.
+  Wire.strip_req
+  SizeLimit.msg_size_ok SizeLimit.rpc_size_outcome
+  Timeout.parse_u64 Timeout.header_timeout Timeout.duration_to_timeout Timeout.effective
+  Timeout.layer_outcome Timeout.rpc_outcome Timeout.timeout_key.
